@@ -90,6 +90,29 @@ CHECKS["C03"] = (
     "DESIGN.md §6 C03",
 )
 
+CHECKS["C01"] = (
+    "Lean 4 theorems over a transcription of the lexer loop (lex_match, _subdivide, _trim_match, last-resort branch, "
+    "map_template_slices) with the regex engines as parameters: whatever the matchers return, the elements concatenate to the input "
+    "(lossless); if the dialect's matchers cover tab/newline/space the lexer never raises, for every input (total). The model is "
+    "tied to PyLexer by correspondence on families of real StringLexer/RegexLexer matchers; the decidable statement specC01 "
+    "(contiguous rendered positions, in-bounds and monotone source positions, coverage, one LXR per unlexable) is evaluated by Lean "
+    "on the real lexer's output for real dialects and all four templaters. Partial: _iter_segments (source mapping) is checked by "
+    "evaluation, not yet proved.",
+    "Lean 4 proof (loop invariants, fuel-indexed induction) + differential correspondence + Lean-evaluated spec on real lexer output",
+    "Lean kernel; standard axioms; regex engines are parameters (MatcherOK, NoStartAfterMid sampled); one genuine defect repaired (fix: ed45326)",
+    "DESIGN.md §6 C01",
+)
+CHECKS["C07"] = (
+    "Lean 4 theorem: for every source text and every ordered, disjoint family of parameter matches the placeholder templater's "
+    "output is consistent (raw slices tile the source with matching text, rendered slices tile the rendered SQL, source slices in "
+    "bounds, literal slices map to identical text). Tied to PlaceholderTemplater.process for every KNOWN_STYLES key (read from the "
+    "code each run). The same Lean predicate is evaluated on every variant produced by the jinja and python templaters "
+    "(partial: those templaters are not modelled; alternate-variant source-slice drift is a listed known finding).",
+    "Lean 4 proof (loop invariant over the match list) + differential correspondence + Lean-evaluated consistency predicate",
+    "Lean kernel; standard axioms; regex.finditer spans are a checked contract; Jinja/str.format external",
+    "DESIGN.md §6 C07",
+)
+
 NOT_YET = {}
 
 
